@@ -449,7 +449,7 @@ func c07Ctx(structs []c07Struct, off int) string {
 
 func c07Apply(base []byte, m *c07Mut, dst []byte) []byte {
 	dst = append(dst[:0], base...)
-	if m.Class == "random" {
+	if len(m.Rnd) > 0 {
 		for i := 0; i+1 < len(m.Rnd); i += 2 {
 			dst[m.Rnd[i]] = byte(m.Rnd[i+1])
 		}
@@ -568,6 +568,27 @@ func c07Enumerate(b []byte, classes map[string]bool, full, stride, nrand int, rn
 					seen[t] = true
 					each(&c07Mut{Class: "pointer", Off: off, W: w, Val: t, Ctx: c07Ctx(structs, off)})
 				}
+			}
+		}
+	}
+	if classes["pointer"] {
+		// version 1 continuation messages (type 0x0010, size 16; their blocks carry no signature): the
+		// continuation is pointed at the message itself, at the header that holds it and at address 0 -
+		// the self-referential continuation of ReaderWalk's counterexample
+		for i := 0; i+24 <= len(b); i++ {
+			if b[i] != 0x10 || b[i+1] != 0 || b[i+2] != 0x10 || b[i+3] != 0 || b[i+5] != 0 || b[i+6] != 0 || b[i+7] != 0 {
+				continue
+			}
+			cur := c07Get(b, i+8, 8)
+			if cur == 0 || cur >= size {
+				continue
+			}
+			for _, tgt := range [][2]uint64{{uint64(i), 24}, {uint64(i), 4096}, {cur, c07Get(b, i+16, 8) + 8}} {
+				m := &c07Mut{Class: "pointer", Off: i + 8, W: 16, Val: tgt[0], Ctx: "V1CONT+8"}
+				for k := 0; k < 8; k++ {
+					m.Rnd = append(m.Rnd, i+8+k, int(byte(tgt[0]>>(8*uint(k)))), i+16+k, int(byte(tgt[1]>>(8*uint(k)))))
+				}
+				each(m)
 			}
 		}
 	}
